@@ -37,6 +37,8 @@
 #include <gatery/hlim/Subnet.h>
 #include <gatery/hlim/NodePtr.h>
 #include <gatery/hlim/supportNodes/Node_SignalTap.h>
+#include <gatery/hlim/coreNodes/Node_Signal2Clk.h>
+#include <gatery/hlim/coreNodes/Node_Signal2Rst.h>
 #include <gatery/scl/synthesisTools/IntelQuartus.h>
 #include <gatery/scl/synthesisTools/XilinxVivado.h>
 #include <gatery/frontend/Attributes.h>
@@ -149,6 +151,14 @@ public:
 	}
 };
 
+// Clock::m_clockDriver / m_resetDriver are protected and have no accessor (getLogicDriver already looks THROUGH
+// them); read them the way a derived clock class could.
+struct ClockPeek : public hlim::Clock {
+	static Node_Signal2Clk *clk(const hlim::Clock &c) { return c.*(&ClockPeek::m_clockDriver); }
+	static Node_Signal2Rst *rst(const hlim::Clock &c) { return c.*(&ClockPeek::m_resetDriver); }
+};
+static int roleOf(BaseNode *n) { return dynamic_cast<Node_Signal2Clk*>(n) ? 1 : dynamic_cast<Node_Signal2Rst*>(n) ? 2 : 0; }
+
 // ------------------------------------------------------------------------------------------------
 // dumping
 // ------------------------------------------------------------------------------------------------
@@ -220,7 +230,7 @@ static void dumpGraph(Circuit &c, std::ostream &o, bool withKind) {
 		o << " g=";
 		if (n->getGroup() == nullptr) o << "-";
 		else { auto it = l.groups.find(n->getGroup()); if (it == l.groups.end()) o << "X"; else o << it->second; }
-		o << " r=" << (n->hasRef() ? 1 : 0) << " i=";
+		o << " r=" << (n->hasRef() ? 1 : 0) << " t=" << roleOf(n) << " i=";
 		for (size_t i = 0; i < n->getNumInputPorts(); i++) o << (i ? "," : "") << npStr(l, n->getDriver(i));
 		o << " o=";
 		for (size_t p = 0; p < n->getNumOutputPorts(); p++) {
@@ -255,7 +265,9 @@ static void dumpGraph(Circuit &c, std::ostream &o, bool withKind) {
 	for (auto &k : c.getClocks()) clocks.push_back(k.get());
 	std::sort(clocks.begin(), clocks.end(), [](hlim::Clock *a, hlim::Clock *b) { return a->getId() < b->getId(); });
 	for (auto *k : clocks) {
-		o << "K " << k->getId() << " m=";
+		// the logic drivers the clock names (never dereferenced unless found among the live nodes)
+		auto drvStr = [&](BaseNode *d) -> std::string { if (!d) return "-"; if (!l.nodes.count(d)) return "X"; return std::to_string(d->getId()); };
+		o << "K " << k->getId() << " d=" << drvStr(ClockPeek::clk(*k)) << "," << drvStr(ClockPeek::rst(*k)) << " m=";
 		// Clock::m_clockedNodes is a set; canonical order = (node id, port), dangling entries last
 		std::vector<std::pair<uint64_t, uint64_t>> entries; size_t dangling = 0;
 		for (auto &np : k->getClockedNodes()) {
@@ -280,6 +292,8 @@ static void dumpGraph(Circuit &c, std::ostream &o, bool withKind) {
 //     resizein <n> <k>   resizeout <n> <k>   bypass <n> <o> <i>   move <n> <group|->
 //     addclock <n> <clock|->   attach <n> <cp> <clock|->   setclock <n> <clock|->   detach <n> <cp>
 //     addref <n>   removeref <n>   destroy <n>
+//     createdrv <c|r> <group|->   (createNode<Node_Signal2Clk / Node_Signal2Rst>)
+//     setdrv <c|r> <clock> <n>    (Clock::setLogicClockDriver / setLogicResetDriver)
 // ------------------------------------------------------------------------------------------------
 struct Seq {
 	Circuit c;
@@ -351,21 +365,36 @@ struct Seq {
 				if (src.node == n && src.port == p) throw Bad{};     // would never terminate
 				n->bypassOutputToInput(p, i);
 			} else if (op == "move") { BaseNode *n = node(w.at(1)); n->moveToGroup(ogroup(w.at(2))); }
-			else if (op == "addclock") { BaseNode *n = node(w.at(1)); n->addClock(oclock(w.at(2))); }
-			else if (op == "attach") { BaseNode *n = node(w.at(1)); size_t cp = std::stoull(w.at(2)); if (cp >= n->getClocks().size()) throw Bad{}; n->attachClock(oclock(w.at(3)), cp); }
+			// the clock port of a Signal2Clk / Signal2Rst node is managed by Clock::setLogic*Driver only
+			else if (op == "addclock") { BaseNode *n = node(w.at(1)); if (roleOf(n)) throw Bad{}; n->addClock(oclock(w.at(2))); }
+			else if (op == "attach") { BaseNode *n = node(w.at(1)); size_t cp = std::stoull(w.at(2)); if (cp >= n->getClocks().size() || roleOf(n)) throw Bad{}; n->attachClock(oclock(w.at(3)), cp); }
 			else if (op == "setclock") { auto *r = dynamic_cast<Node_Register*>(node(w.at(1))); if (!r) throw Bad{}; r->setClock(oclock(w.at(2))); }
-			else if (op == "detach") { BaseNode *n = node(w.at(1)); size_t cp = std::stoull(w.at(2)); if (cp >= n->getClocks().size()) throw Bad{}; n->detachClock(cp); }
+			else if (op == "detach") { BaseNode *n = node(w.at(1)); size_t cp = std::stoull(w.at(2)); if (cp >= n->getClocks().size() || roleOf(n)) throw Bad{}; n->detachClock(cp); }
 			else if (op == "addref") { BaseNode *n = node(w.at(1)); refs[n->getId()].emplace_back(n); }
 			else if (op == "removeref") { BaseNode *n = node(w.at(1)); auto &v = refs[n->getId()]; if (v.empty()) throw Bad{}; v.pop_back(); }
 			else if (op == "destroy") {
 				BaseNode *n = node(w.at(1));
 				if (n->hasRef()) throw Bad{};                     // the passes skip referenced nodes; the destructor asserts
+				if (roleOf(n) && n->getClocks()[0] != nullptr) throw Bad{};   // a bound driver has side effects: never culled
 				auto &v = c.getNodes();                           // the erase idiom of the cull passes
 				for (size_t i = 0; i < v.size(); i++) if (v[i].get() == n) {
 					if (i + 1 != v.size()) v[i] = std::move(v.back());
 					v.pop_back();
 					break;
 				}
+			} else if (op == "createdrv") {
+				NodeGroup *g = ogroup(w.at(2));
+				BaseNode *n = w.at(1) == "c" ? (BaseNode*)c.createNode<Node_Signal2Clk>() : (BaseNode*)c.createNode<Node_Signal2Rst>();
+				n->moveToGroup(g);
+			} else if (op == "setdrv") {
+				hlim::Clock *k = oclock(w.at(2)); BaseNode *n = node(w.at(3));
+				if (!k) throw Bad{};
+				bool isClk = w.at(1) == "c";
+				BaseNode *cur = isClk ? (BaseNode*)ClockPeek::clk(*k) : (BaseNode*)ClockPeek::rst(*k);
+				// contract: a fresh (unbound) driver node, or re-binding the current one
+				if (n->getClocks().empty() || (n->getClocks()[0] != nullptr && cur != n)) throw Bad{};
+				if (isClk) { auto *d = dynamic_cast<Node_Signal2Clk*>(n); if (!d) throw Bad{}; k->setLogicClockDriver(d); }
+				else { auto *d = dynamic_cast<Node_Signal2Rst*>(n); if (!d) throw Bad{}; k->setLogicResetDriver(d); }
 			} else throw Bad{};
 			return true;
 		} catch (const gtry::utils::InternalError &) { return false; }
@@ -432,6 +461,21 @@ struct Gen {
 			size_t ni = rng.below(4), no = rng.below(3), nc = rng.below(3) == 0 ? 1 + rng.below(2) : 0; if (ni + no == 0) no = 1;
 			return "create " + S(ni) + " " + S(no) + " " + S(nc) + " g " + gs;
 		}
+		if (r < 9 + 3 && !q.clocks.empty() && rng.below(2) == 0) {          // logic drivers of clocks
+			std::vector<BaseNode*> dc, dr;
+			for (auto *n : all) { if (roleOf(n) == 1) dc.push_back(n); if (roleOf(n) == 2) dr.push_back(n); }
+			bool isClk = rng.coin();
+			auto &pool = isClk ? dc : dr;
+			NodeGroup *g = q.groups[rng.below(q.groups.size())];
+			if (pool.empty() || (pool.size() < 4 && rng.below(3) == 0)) return std::string("createdrv ") + (isClk ? "c " : "r ") + S(g->getId());
+			hlim::Clock *k = q.clocks[rng.below(q.clocks.size())];
+			// mostly a fresh node or the current driver; sometimes any node (the call is then out of contract and refused)
+			std::vector<BaseNode*> ok;
+			BaseNode *cur = isClk ? (BaseNode*)ClockPeek::clk(*k) : (BaseNode*)ClockPeek::rst(*k);
+			for (auto *n : pool) if (n->getClocks()[0] == nullptr || n == cur) ok.push_back(n);
+			BaseNode *n = (!ok.empty() && rng.below(8)) ? ok[rng.below(ok.size())] : pool[rng.below(pool.size())];
+			return std::string("setdrv ") + (isClk ? "c " : "r ") + S(k->getId()) + " " + S(n->getId());
+		}
 		if (r < 11) { if (q.groups.size() >= 5) return ""; return "addgroup " + S(q.groups[rng.below(q.groups.size())]->getId()); }
 		if (r < 13) { if (q.clocks.size() >= 3) return ""; return "createclock"; }
 		BaseNode *n = all[rng.below(all.size())];
@@ -496,6 +540,7 @@ struct Gen {
 			return "addref " + id;
 		}
 		if (n->hasRef()) return "";                                           // destruction
+		if (roleOf(n) && n->getClocks()[0] != nullptr && rng.below(4)) return "";   // (sometimes chosen: refused by contract)
 		return "destroy " + id;
 	}
 };
@@ -537,8 +582,21 @@ static int runOps(const std::string &infile, const std::string &outfile) {
 // ------------------------------------------------------------------------------------------------
 // T2: designs
 // ------------------------------------------------------------------------------------------------
-// design programs plus: pathattr A B   (frontend pathAttribute: a Node_PathAttributes for the synthesis tool passes)
+// design programs plus:
+//   pathattr A B                (frontend pathAttribute: a Node_PathAttributes for the synthesis tool passes)
+//   dclk NAME                   (a clock derived from the design clock)
+//   clkscope NAME / endclkscope (registers created inside use the derived clock)
+//   ovrclk BIT [NAME]           (Clock::overrideClkWith on the design clock or a derived one)
+//   ovrrst BIT [NAME]           (Clock::overrideRstWith)      rstsig BIT [NAME]   (Clock::reset(signal))
 struct Interp9 : public nd::Interp {
+	gtry::Clock *mainClock = nullptr;
+	std::map<std::string, std::unique_ptr<gtry::Clock>> derived;
+	std::vector<std::unique_ptr<ClockScope>> clockScopes;
+	gtry::Clock &clk(const std::vector<std::string> &t, size_t i) {
+		if (t.size() <= i || t[i] == "main") return *mainClock;
+		auto it = derived.find(t[i]); if (it == derived.end()) throw std::runtime_error("unknown clock " + t[i]);
+		return *it->second;
+	}
 	void stmt(const std::vector<std::string> &t) override {
 		if (t[0] == "pathattr") {
 			nd::Val &a = get(t.at(1)); nd::Val &b = get(t.at(2));
@@ -548,8 +606,15 @@ struct Interp9 : public nd::Interp {
 			pathAttribute(sa, sb, pa);
 			return;
 		}
+		if (t[0] == "dclk") { ClockConfig cfg; cfg.name = t.at(1); derived[t.at(1)] = std::make_unique<gtry::Clock>(mainClock->deriveClock(cfg)); return; }
+		if (t[0] == "clkscope") { clockScopes.push_back(std::make_unique<ClockScope>(clk(t, 1))); return; }
+		if (t[0] == "endclkscope") { if (clockScopes.empty()) throw std::runtime_error("endclkscope"); clockScopes.pop_back(); return; }
+		if (t[0] == "ovrclk") { clk(t, 2).overrideClkWith(asB(t.at(1))); return; }
+		if (t[0] == "ovrrst") { clk(t, 2).overrideRstWith(asB(t.at(1))); return; }
+		if (t[0] == "rstsig") { clk(t, 2).reset(asB(t.at(1))); return; }
 		nd::Interp::stmt(t);
 	}
+	~Interp9() { while (!clockScopes.empty()) clockScopes.pop_back(); }
 };
 
 // capacity == size + slack, through the public accessor
@@ -577,6 +642,7 @@ static void runCase(const nd::Program &prog, const std::string &v, int slack, co
 		gtry::Clock clock({ .absoluteFrequency = 100'000'000 });
 		ClockScope cs(clock);
 		Interp9 in;
+		in.mainClock = &clock;
 		// top-level statements one by one: a dump after every construction step
 		size_t pc = 0;
 		while (pc < prog.stmts.size()) {
